@@ -288,3 +288,55 @@ def mroot(blocks):
 def first_part(p):
     from pathlib import Path
     return Path(p).parts[0]
+
+
+@native
+def tuple_size(sigma, i):
+    return sigma[i][3]
+
+
+@native
+def tuple_matches(sigma, i):
+    return sigma[i][0] == sigma[i][1]
+
+
+@native
+def size_sum(sigma, i):
+    return sum(t[3] for t in sigma[:i])
+
+
+@native
+def match_sum(sigma, i):
+    return sum(t[3] for t in sigma[:i] if t[0] == t[1])
+
+
+@native
+def tuples_wellformed(sigma, j):
+    return all(len(t) == 4 and t[3] >= 0 for t in sigma)
+
+
+@native
+def sha256(b):
+    import hashlib
+    return hashlib.sha256(bytes(b)).digest()
+
+
+@native
+def zeros(n):
+    return bytes(n)
+
+
+@native
+def sha1(b):
+    import hashlib
+    return hashlib.sha1(bytes(b)).digest()
+
+
+@native
+def hint(*args):
+    return True
+
+
+@native
+def hashed():
+    raise NotImplementedError("ghost value (input of the last digest) has no native reading")
